@@ -15,6 +15,7 @@ import PartituraModel.Model.Voices
 import PartituraModel.Model.Vosa
 import PartituraModel.Model.KeyEst
 import PartituraModel.Model.Ps13
+import PartituraModel.Model.C17Float
 import PartituraModel.Gen.C17Tables
 
 namespace Model.C17Wrap
@@ -194,5 +195,67 @@ def keyName (i : Fin 24) : String :=
 def sortedKeys (ps : KeyEst.ProfileSet) (notes : List KeyEst.KNote) : List String :=
   let t := Tab.ofFun (KeyEst.hist notes)
   (sortedKeyIdx ps t.get).map keyName
+
+-- ------------------------------------------------------------------ the 24 correlations
+
+/-- the 24 numbers `_similarity_with_pitch_profile` returns, as exact rationals: the signed SQUARE of each correlation
+    coefficient, `sgn(c) c² / (var(h) var(p))` (`C17.corr` is its signed square root); `none` = constant histogram (every
+    `np.corrcoef` is NaN) -/
+def corrSquares (ps : KeyEst.ProfileSet) (notes : List KeyEst.KNote) : Option (List Rat) :=
+  let t := Tab.ofFun (KeyEst.hist notes)
+  let vh := covFast t.get t.get
+  if vh = 0 then none
+  else some ((List.range 24).map fun i =>
+    let s := keyScoreFast ps t.get i
+    s.1 / (vh * s.2))
+
+-- ------------------------------------------------------------------ method / *args / **kwargs dispatch
+
+/-- `estimate_spelling(note_info, method=<m>, **kwargs)` on a structured array (`none` for `method` = argument absent;
+    `kw` = the keyword arguments, natural numbers).  `if method == "ps13s1": ps = ps13s1` binds the algorithm - any other
+    method leaves `ps` unbound (UnboundLocalError); `ps(array, **kwargs)` accepts exactly the keyword parameters of
+    `ps13s1` (TypeError otherwise), missing ones take the defaults of its signature.  `none` = the call raises. -/
+def estimateSpellingOpts (method : Option String) (kw : List (String × Nat)) (a : NoteArray) :
+    Option (List (String × Int × Int)) :=
+  if method.getD ESTIMATE_SPELLING_METHOD_DEFAULT ∈ ESTIMATE_SPELLING_METHODS ∧ ∀ x ∈ kw, x.1 ∈ PS13_KWARGS then
+    (spellingRows a).bind fun rows =>
+      C17Float.ps13F ((lookup "K_pre" kw).getD PS13_K_PRE) ((lookup "K_post" kw).getD PS13_K_POST) rows
+  else none
+
+/-- a keyword value handed to `estimate_key` -/
+inductive KwVal
+  | str (s : String)
+  | bool (b : Bool)
+deriving DecidableEq, Repr
+
+/-- what `estimate_key` answers: one key name, or (`return_sorted_keys=True`) the ranking -/
+inductive KeyAnswer
+  | one (name : String)
+  | ranking (names : List String)
+deriving DecidableEq, Repr
+
+/-- `estimate_key(note_info, method=<m>, *args, **kwargs)` on a structured array.  In source order: the method must pass
+    `if method not in (...)` (ValueError); `key_profiles` absent -> the default name is put into kwargs, present -> it must
+    be listed in `VALID_KEY_PROFILES` (ValueError; a non-string never is); then `ks_kid(array, *args, **kwargs)`: ANY extra
+    positional argument collides with the keyword `key_profiles` that is now always present (TypeError), keywords other than
+    ks_kid's parameters are a TypeError; `return_sorted_keys` (default False) selects the ranking.  `none` = raises. -/
+def keyProfileArg (kw : List (String × KwVal)) : Option String :=
+  match lookup "key_profiles" kw with
+  | none => some ESTIMATE_KEY_DEFAULT
+  | some (.str n) => if n ∈ VALID_KEY_PROFILES then some n else none
+  | some (.bool _) => none
+
+def estimateKeyOpts (method : Option String) (nargs : Nat) (kw : List (String × KwVal)) (a : NoteArray) :
+    Option KeyAnswer :=
+  if method.getD ESTIMATE_KEY_METHOD_DEFAULT ∈ ESTIMATE_KEY_METHODS then
+    (keyProfileArg kw).bind fun name =>
+      if nargs = 0 ∧ ∀ x ∈ kw, x.1 ∈ KS_KID_KWARGS then
+        (ksKidSet name).bind fun ps => (keyRows a).bind fun rows =>
+          match lookup "return_sorted_keys" kw with
+          | some (.bool true) => some (.ranking (sortedKeys ps rows))
+          | some (.str _) => none      -- not modelled: the truth value of a string
+          | _ => (estimateKeyFast ps rows).map .one
+      else none
+  else none
 
 end Model.C17Wrap
